@@ -1,7 +1,7 @@
 (* Properties_C09.v — theorem statements for property C09 (linear solvers), each closed by
    [exact] of a lemma proved in SparseProofs.v / CSparseProofs.v.  Nothing else lives here. *)
 From Coq Require Import ZArith List Bool Arith Lia Reals Lra.
-From XF Require Import Arith Sparse SparseProofs.
+From XF Require Import Arith Sparse SparseProofs CSparse CSparseProofs.
 Import ListNotations.
 Local Open Scope R_scope.
 
@@ -107,3 +107,25 @@ Proof.
   - rewrite mcreate_length. exact Hr.
   - split; [exact H1|]. rewrite H2. apply mcreate_length.
 Qed.
+
+(* -- complex-symmetric solver: a reported success was decided on the RECOMPUTED residual ----
+   PBCGSolve's own stopping test uses a recursively updated residual, which drifts in binary64
+   (found by this check: true relative residual 2.6 for a reported 1e-8 on a low-frequency
+   problem with solid conductors).  PBCGSolveMod ends with a restart loop; for EVERY arithmetic,
+   binary64 included, status 1 means: zero right-hand side, or the true residual of the returned
+   vector passed "!(trueEr>Precision)", or the last restart failed to halve the true residual. *)
+Theorem C09_complex_exit_on_recomputed_residual :
+  forall (F : Type) (A : Arith F) (fuel : nat) (L : clin (F:=F)) (flag : bool) (V : list (F * F)) (it : nat),
+  pbcgsolvemod A fuel L flag = (V, it, 1%nat) ->
+  forallb (fun z => ceqb A z (azero (CA A))) (cb L) = true \/
+  altb A (cprec L) (true_er A L V) = false \/
+  exists l, altb A (true_er A L V) (amul A (adec A 5 (-1)) l) = false.
+Proof. intros F A. exact (pbcgsolvemod_exit A). Qed.
+Print Assumptions C09_complex_exit_on_recomputed_residual.
+
+Theorem C09_complex_restart_stops_when_tolerance_met :
+  forall (F : Type) (A : Arith F) (fuel : nat) (L : clin (F:=F)) (V : list (F * F)) (it r : nat),
+  altb A (cprec L) (true_er A L V) = false ->
+  restart_loop A (S r) fuel L V it None = (V, it, 1%nat).
+Proof. intros F A fuel L V it r H. apply restart_loop_first_pass. exact H. Qed.
+Print Assumptions C09_complex_restart_stops_when_tolerance_met.
